@@ -46,17 +46,12 @@ fn search_harness<const N: usize>(pat: &'static [u8]) {
     kani::cover!(exp.is_none());
 }
 #[kani::proof]
-#[kani::unwind(9)]
-fn c02_search_substring_ab_6() {
-    search_harness::<6>(b"ab");
+#[kani::unwind(5)]
+fn c02_search_substring_ab_3() {
+    search_harness::<3>(b"ab");
 }
 #[kani::proof]
-#[kani::unwind(9)]
-fn c02_search_substring_aab_7() {
-    search_harness::<7>(b"aab");
-}
-#[kani::proof]
-#[kani::unwind(9)]
-fn c02_search_substring_aa_6() {
-    search_harness::<6>(b"aa");
+#[kani::unwind(6)]
+fn c02_search_substring_aa_4() {
+    search_harness::<4>(b"aa");
 }
